@@ -235,6 +235,7 @@ def finalize_violation(spec, res, m, ref, repo, max_execs, wall_s=None):
     sig = M.signature_of(m)
     h = spec['hashseed']
     rspec = M.to_replay_spec(spec, res)
+    loose = [False]
     with Pool([h] * 16, repo) as mp:
         def test_many(cands):
             out = [None] * len(cands)
@@ -244,21 +245,25 @@ def finalize_violation(spec, res, m, ref, repo, max_execs, wall_s=None):
                 c['_i'] = i
                 jobs.append((None, c))
             for s, r in mp.run_jobs(jobs):
-                out[s['_i']] = M.has_signature(r, sig)
+                out[s['_i']] = M.has_signature(r, sig, loose[0])
             return out
         if not test_many([rspec])[0]:
-            return None, 'explicit schedule did not reproduce the violation'
+            # the op may deviate differently in every process (an address in the result): then "same violation" can only
+            # mean "this op deviates again"
+            loose[0] = True
+            if not test_many([rspec])[0]:
+                return None, 'explicit schedule did not reproduce the violation'
         mspec, used = M.minimise(rspec, sig, test_many, max_execs, wall_s)
     # final confirmation in a brand-new zygote process
     with Pool([h], repo) as fp:
         r = fp.z[0].call(mspec)
-    if not M.has_signature(r, sig):
+    if not M.has_signature(r, sig, loose[0]):
         return None, 'minimised schedule did not reproduce in a new process'
-    mm = [x for x in r['mismatches'] if M.signature_of(x) == sig][0]
+    mm = [x for x in r['mismatches'] if M.signature_of(x) == sig or (loose[0] and M.signature_of(x)[:2] == sig[:2])][0]
     k = O.op_key(mm['op'])
     data = {
         'property': PROP, 'kind': 'sim', 'seed': spec['seed'], 'hashseed': h, 'signature': sig,
-        'invariant': mm['inv'], 'classification': mm.get('class'), 'op': mm['op'],
+        'invariant': mm['inv'], 'classification': mm.get('class'), 'op': mm['op'], 'observable_differs_between_processes': loose[0],
         'expected': ref.get(k, {}).get('obs'), 'observed': mm['observed'],
         'minimisation_executions': used, 'spec': {kk: v for kk, v in mspec.items() if kk not in ('_i',)},
     }
@@ -375,6 +380,10 @@ def focus_sweep(seed, stats, found, ref, probes, pool, t_end, per_class, reps, w
                 continue
             bases.append(gen.gen_sweep_base(seed * 1_000_000 + 900_000 + i, c, ref, fam))
             i += 1
+        if len(fams) >= 2:
+            # two members of the class at the same time (same code, two dialects / catalogs)
+            bases.append(gen.gen_sweep_base(seed * 1_000_000 + 900_000 + i, c, ref, fams[-1], fams[-2]))
+            i += 1
     ref.ensure([op for b_ in bases for cl in b_['clients'] for op in cl])
     check_twice(ref, pool, found)
     lists = {}
@@ -457,7 +466,7 @@ def focus_sweep(seed, stats, found, ref, probes, pool, t_end, per_class, reps, w
         if novel:
             stats.novel_state.update(p_ for f in novel for p_ in f[3] if not _known_state(p_))
         for r in range(n_runs):
-            bb = b if r < wf_runs else gen.gen_sweep_base(b['seed'] + 7 * (1 + r // 4), c, ref, b['families'][0])
+            bb = b if r < wf_runs else gen.gen_sweep_base(b['seed'] + 7 * (1 + r // 4), c, ref, *b['families'][:2])
             if bb is not b:
                 ref.ensure([op for cl in bb['clients'] for op in cl])
             spec = _copy.deepcopy(bb)
@@ -467,12 +476,16 @@ def focus_sweep(seed, stats, found, ref, probes, pool, t_end, per_class, reps, w
                 spec['instr_fn'] = fns[(r // 4) % len(fns)]
             spec['sched_seed'] = (b['sched_seed'] + 104729 * (r + 1)) & 0x3FFFFFFF
             spec['directed'] = True
+            if novel:
+                spec['novel'] = True
             if r % 4 == 3:
                 spec['focus_faults'] = [[r % len(b['clients']), 1 + (r * 7) % 13, 'abort']]
             spec = gen.attach(spec, ref, probes)
             jobs.append((spec['hashseed'], spec))
             directed += 1
+    # runs directed at state that is not known from the pinned tree go first, everything else in random order
     rng.shuffle(jobs)
+    jobs.sort(key=lambda j: 0 if j[1].get('novel') else 1)
     t_jobs = time.time()
     pool.run_jobs(jobs, on_result=on, deadline=t_end)
     if os.environ.get('VERIF_DEBUG'):
